@@ -196,9 +196,8 @@ namespace avel {
 
         static vec8x64i compute_mp(vec8x64i l, vec8x64i d) {
             vec8x64i n = vec8x64i{1} << (l - vec8x64i{1});
-            n = clear(vec8x64i{1} == d, n);
-
             d = avel::abs(d);
+            n = clear(vec8x64i{1} == d, n);
 
             auto quotient0 = div_64uhi_by_64u(extract<0>(n), extract<0>(d));
             auto quotient1 = div_64uhi_by_64u(extract<1>(n), extract<1>(d));
